@@ -65,8 +65,15 @@ func category(b, e, last int) string {
 }
 
 // traffic produces K outbound messages of mixed kinds on a logged-on rig.
-func traffic(c *vk.Ctx, r *rig.StepRig, p *rig.Peer, tr *tracker, k int, sel func(int) int, reuse bool) bool {
+func traffic(c *vk.Ctx, r *rig.StepRig, p *rig.Peer, tr *tracker, k int, sel func(int) int, reusedObj **fixgen.MarketDataRequestReject) bool {
+	// reusedObj != nil: the application sends ONE message object again and again (the holder outlives this call, so
+	// the same object is sent in later rounds of the session too)
+	reuse := reusedObj != nil
 	var reused *fixgen.MarketDataRequestReject
+	if reuse {
+		reused = *reusedObj
+		defer func() { *reusedObj = reused }()
+	}
 	for tr.last < k {
 		var res rig.StepResult
 		switch sel(4) {
@@ -156,7 +163,7 @@ func judge(c *vk.Ctx, tr *tracker, b, e int, lastAtCall int, res rig.StepResult,
 
 func main() {
 	c := vk.Init("C10")
-	c.Rule("(1) EXHAUSTIVE: for K in 1..8 outbound messages of mixed kinds (Logon/Logon reply, application sends, Heartbeat replies to TestRequests, Rejects of damaged messages), both roles, classes fresh-objects and reused-object: every ResendRequest(b,e) with (b,e) in [0,K+2]^2 on a fresh session; first transmissions are recorded from Outgoing() as emitted and compared byte for byte. (2) random sessions with K up to 200 and up to 12 repeated/overlapping requests each, a third of them written with leading zeros (02..010); in every third one the application registers observers (outgoing all-types, outgoing for its message type, incoming all-types) before Session.Run and removes them after the first round. (2b) sessions continuing a counter store preset to 9990 / 99990 / 999990 / 9999990 / 2^31-10 / 2^32-10: 14 messages, then requests b..e with b = preset+1..15 and e in {b, b+1, preset+9, +10, +11, last-1, last, 0}. (3) Logon gap: counter store preset to c, Logon with 34=r, all (c,r) in [0,6]x[1,8], both roles: r>c+1 must draw a ResendRequest with 7=c+1; and the same at a second logon of one session (after its own Logout was answered, or after the peer's Logout), the second Logon skipping 0, 1 or 3 numbers. (3c) real time, N=1: ResendRequest(1,0) arriving while the session's own TestRequest is pending is answered with the stored messages, not rejected. (4) thorough: 3 goroutines send while requests are fed; retransmissions must be byte-identical, contiguous b..n with n between last-sent-at-call and last-sent-at-return. distinct = (role,class,K,b,e,traffic); non-trivial = request inside the sent range or e=0")
+	c.Rule("(1) EXHAUSTIVE: for K in 1..8 outbound messages of mixed kinds (Logon/Logon reply, application sends, Heartbeat replies to TestRequests, Rejects of damaged messages), both roles, classes fresh-objects and reused-object: every ResendRequest(b,e) with (b,e) in [0,K+2]^2 on a fresh session; first transmissions are recorded from Outgoing() as emitted and compared byte for byte. (2) random sessions with K up to 200 and up to 12 repeated/overlapping requests each (every other session sends ONE application message object again and again through all rounds), a third of them written with leading zeros (02..010); in every third one the application registers observers (outgoing all-types, outgoing for its message type, incoming all-types) before Session.Run and removes them after the first round. (2b) sessions continuing a counter store preset to 9990 / 99990 / 999990 / 9999990 / 2^31-10 / 2^32-10: 14 messages, then requests b..e with b = preset+1..15 and e in {b, b+1, preset+9, +10, +11, last-1, last, 0}. (3) Logon gap: counter store preset to c, Logon with 34=r, all (c,r) in [0,6]x[1,8], both roles: r>c+1 must draw a ResendRequest with 7=c+1; and the same at a second logon of one session (after its own Logout was answered, or after the peer's Logout), the second Logon skipping 0, 1 or 3 numbers. (3c) real time, N=1: ResendRequest(1,0) arriving while the session's own TestRequest is pending is answered with the stored messages, not rejected. (4) thorough: 3 goroutines send while requests are fed; retransmissions must be byte-identical, contiguous b..n with n between last-sent-at-call and last-sent-at-return. distinct = (role,class,K,b,e,traffic); non-trivial = request inside the sent range or e=0")
 	c.Assume("precondition: no outgoing handler refuses and the store does not fail (every assigned number was saved)")
 	type job struct {
 		role  rig.Role
@@ -201,7 +208,12 @@ func main() {
 		}
 		tr.observe(res.Outs)
 		rr := c.Rand("c10-traffic", int64(i/((j.k+3)*(j.k+3))))
-		if !traffic(c, r, p, tr, j.k, func(n int) int { return rr.Intn(n) }, j.reuse) {
+		var holder *fixgen.MarketDataRequestReject
+		var reusedObj **fixgen.MarketDataRequestReject
+		if j.reuse {
+			reusedObj = &holder
+		}
+		if !traffic(c, r, p, tr, j.k, func(n int) int { return rr.Intn(n) }, reusedObj) {
 			return
 		}
 		lastAtCall := tr.last
@@ -228,7 +240,17 @@ func main() {
 	vk.Parallel(nRand, runtime.NumCPU(), func(i int) {
 		rr := c.Rand("c10-random", int64(i))
 		role := rig.Role(rr.Intn(2))
-		desc := fmt.Sprintf("%s fresh-objects random#%d", role, i)
+		// every other session the application sends one message object again and again, through all rounds: a
+		// retransmission (which passes the outgoing pipeline and the store again) must not disturb what is stored
+		// under the numbers of the object's later sends
+		class := "fresh-objects"
+		var holder *fixgen.MarketDataRequestReject
+		var reusedObj **fixgen.MarketDataRequestReject
+		if i%2 == 1 {
+			class = "reused-object"
+			reusedObj = &holder
+		}
+		desc := fmt.Sprintf("%s %s random#%d", role, class, i)
 		// every third session: the application registers observers (outgoing for all types and for the type it sends,
 		// incoming for all types) once the session exists, and removes them after the first round of traffic with
 		// the identifiers it was given
@@ -270,7 +292,7 @@ func main() {
 			// every other round the next request follows the previous one directly (repeated / overlapping
 			// requests with no new outbound message in between)
 			if round == 0 || rr.Intn(2) == 0 {
-				if !traffic(c, r, p, tr, k, func(n int) int { return rr.Intn(n) }, false) {
+				if !traffic(c, r, p, tr, k, func(n int) int { return rr.Intn(n) }, reusedObj) {
 					return
 				}
 			} else {
@@ -301,7 +323,8 @@ func main() {
 			c.Eval(vk.Hash64([]byte(desc), []byte(fmt.Sprint(round, b, e, lastAtCall))), strings.HasPrefix(cat, "inside") || cat == "e=0")
 			c.SetAdd("range_categories", cat)
 			c.Max("max_last_sent", int64(lastAtCall))
-			judge(c, tr, b, e, lastAtCall, res, desc, "fresh-objects")
+			judge(c, tr, b, e, lastAtCall, res, desc, class)
+			c.Count("random_session_requests/"+class, 1)
 			tr.observe(res.Outs) // a Reject or other new message consumes a number
 		}
 	})
@@ -333,7 +356,7 @@ func main() {
 		}
 		tr.observe(res.Outs)
 		rr := c.Rand("c10-preset", int64(i))
-		if !traffic(c, r, p, tr, preset+14, func(n int) int { return rr.Intn(n) }, false) {
+		if !traffic(c, r, p, tr, preset+14, func(n int) int { return rr.Intn(n) }, nil) {
 			return
 		}
 		if tr.last < preset+14 || len(tr.first) < 14 {
